@@ -11,7 +11,10 @@ Inductive case :=
     (* v merged into an empty config (cfg), unpacked into a zero value of the same type *)
 | CFault (o : ropts) (t : ty) (cfg : value) (fault_path : string) (source : string) (observed : uobs) (message : string)
     (* a valid (config, type) pair with one fault injected at fault_path; loaded with MetaData source *)
-| CHooked (what : string) (t : ty) (old : gv) (observed : uobs) (after : gv).
+| CHooked (what : string) (t : ty) (old : gv) (observed : uobs) (after : gv)
+| CApiErr (entry path source : string) (typed : bool) (message : string).
+    (* an error returned by some entry point for a fault at [path] of a config loaded with
+       MetaData source (C14; outside the model: the message is judged) *)
     (* a hand-written target type with Validate / InitDefaults hooks (outside the model):
        only the implementation's before/after observations *)
 
@@ -46,10 +49,14 @@ Definition model_unpack (c : case) : res gv :=
   | CRound _ _ _ None _ => OutOfModel
   | CFault o t cfg _ _ _ _ => unpack o (TPtr t) (GPtr (zero t)) cfg
   | CHooked _ _ _ _ _ => OutOfModel
+  | CApiErr _ _ _ _ _ => OutOfModel
   end.
 
 Definition observed_of (c : case) : uobs :=
-  match c with CUnpack _ _ _ _ ob _ | CRound _ _ _ _ ob | CFault _ _ _ _ _ ob _ | CHooked _ _ _ ob _ => ob end.
+  match c with
+  | CUnpack _ _ _ _ ob _ | CRound _ _ _ _ ob | CFault _ _ _ _ _ ob _ | CHooked _ _ _ ob _ => ob
+  | CApiErr _ _ _ _ _ => UPanic
+  end.
 
 Definition model_agrees (c : case) : bool :=
   match model_unpack c, observed_of c with
